@@ -223,6 +223,14 @@ func cmdEnum(args []string) {
 					targets = []string{"bash", "zsh"}
 					argv = append([]gh.Tok{d.Cfg.Prog}, argv...)
 				}
+				for pi, pre := range d.Pres {
+					c := gh.Case{Ev: "case", Def: d.ID, ID: *idBase + 45000000 + 8*id + pi, Argv: argv, Disp: d.Disp, HasPre: true, Pre: pre}
+					c.Res = gh.RunCase(d, &c)
+					line, _ := json.Marshal(&c)
+					block = append(block, line)
+					cases++
+					stats["history-case"]++
+				}
 				for ti, target := range targets {
 					c := gh.Case{Ev: "case", Def: d.ID, ID: *idBase + 2*id + ti, Argv: argv, Disp: d.Disp, Comp: target}
 					c.Res = gh.RunCase(d, &c)
